@@ -258,12 +258,20 @@ func c07case(c *wk.Ctx, idx int, r *rand.Rand, f c07fault) {
 				h.NewNonceHash = rbytes(r, 16)
 			case "hash2", "hash3":
 				_ = authKeyForHash
-				// the server recomputes with the other marker byte: done by flipping to a digest of different input
-				x := append([]byte{}, h.NewNonceHash...)
-				for i := range x {
-					x[i] ^= byte(0x21 + i)
+				// the value that belongs to dh_gen_retry (marker 2) resp. dh_gen_fail (marker 3), inside a dh_gen_ok
+				marker := byte(2)
+				if f.How == "hash3" {
+					marker = 3
 				}
-				h.NewNonceHash = x
+				if h.AuthKey != nil && h.NewNonce != nil {
+					h.NewNonceHash = mtp.NewNonceHash(h.NewNonce, h.AuthKey, marker)
+				} else {
+					x := append([]byte{}, h.NewNonceHash...)
+					for i := range x {
+						x[i] ^= byte(0x21 + i)
+					}
+					h.NewNonceHash = x
+				}
 			}
 		case f.Site == "ctor":
 			switch {
